@@ -2,6 +2,7 @@ package e1
 
 import (
 	"fmt"
+	"math/rand"
 	"runtime"
 	"strings"
 	"sync"
@@ -144,6 +145,27 @@ func RunC18(k *fw.Case) {
 		k.Inconclusive("generated conc text does not compile: " + trunc(err.Error(), 300) + " text: " + trunc(text.String(), 500))
 		return
 	}
+	// the compiled blocks are executed several times (fresh log, fresh holds each time): conc
+	// blocks are cheap to run and every execution is another schedule
+	reps := 6
+	for rep := 0; rep < reps; rep++ {
+		vals.reset()
+		if !runConcOnce(k, r, rb, obs, vals, rules, text.String(), lagCat, procs) {
+			break
+		}
+	}
+	k.Sample(map[string]interface{}{"rule": rules[0].text, "gomaxprocs": procs})
+}
+
+func (v *valRec) get(id int64) (interface{}, bool) {
+	v.mu.Lock()
+	defer v.mu.Unlock()
+	x, ok := v.m[id]
+	return x, ok
+}
+
+// runConcOnce executes the compiled rules once and checks the event log; false stops the case.
+func runConcOnce(k *fw.Case, r *rand.Rand, rb *builder.RuleBuilder, obs *trace.Obs, vals *valRec, rules []*concRule, textS string, lagCat string, procs int) bool {
 	lg := trace.NewLog()
 	// one laggard per block, preferring the rotating category
 	holds := 0
@@ -175,7 +197,7 @@ func RunC18(k *fw.Case) {
 	k.Count("holds_entered", int64(lg.HoldsEntered()))
 	if pan != nil {
 		k.Inconclusive("conc rule panicked into the caller (C09's subject): " + trunc(fmt.Sprint(pan), 200))
-		return
+		return false
 	}
 	det := func(cr *concRule) map[string]interface{} {
 		var es []string
@@ -231,21 +253,20 @@ func RunC18(k *fw.Case) {
 		k.Distinct(strings.Join(cats, ","), cr.anyFail, len(cr.members))
 	}
 	if anyFail && eerr == nil {
-		k.Violate("error-nil", "a conc member failed but the call returned a nil error", map[string]interface{}{"text": text.String()})
+		k.Violate("error-nil", "a conc member failed but the call returned a nil error", map[string]interface{}{"text": textS})
 	}
 	if !anyFail && eerr != nil {
-		k.Violate("error-unexpected", "no conc member fails but the call returned an error: "+trunc(eerr.Error(), 300), map[string]interface{}{"text": text.String()})
+		k.Violate("error-unexpected", "no conc member fails but the call returned an error: "+trunc(eerr.Error(), 300), map[string]interface{}{"text": textS})
 	}
 	time.Sleep(300 * time.Microsecond)
 	if n := lg.Len(); n != len(evs) {
-		k.Violate("late-events", fmt.Sprintf("%d event(s) of conc members were logged after the call had returned", n-len(evs)), map[string]interface{}{"text": text.String(), "gomaxprocs": procs})
+		k.Violate("late-events", fmt.Sprintf("%d event(s) of conc members were logged after the call had returned", n-len(evs)), map[string]interface{}{"text": textS, "gomaxprocs": procs})
 	}
-	k.Sample(map[string]interface{}{"rule": rules[0].text, "gomaxprocs": procs})
+	return true
 }
 
-func (v *valRec) get(id int64) (interface{}, bool) {
+func (v *valRec) reset() {
 	v.mu.Lock()
-	defer v.mu.Unlock()
-	x, ok := v.m[id]
-	return x, ok
+	v.m = map[int64]interface{}{}
+	v.mu.Unlock()
 }
